@@ -356,7 +356,7 @@ def _cond_fvs(c):
     if e is not None: return e[1].fv() | e[2].fv()
     t = getattr(c, "tree", None)
     if t is not None: return _fv_val(t)
-    fo = getattr(c, "finite_of", None)
+    fo = getattr(c, "finite_elem", None)
     if fo is not None: return fo.fv()
     return set()
 
@@ -390,13 +390,13 @@ def subst_cond(cond, mapping):
         if _looks_negative(dd): dd = -dd; a, b = b, a
         nc = Cond.get(("eq", dd.keystr()), f"{a!r} == {b!r}"); nc.eq = (True, a, b)
         return nc
-    fo = getattr(cond, "finite_of", None)
+    fo = getattr(cond, "finite_elem", None)
     if fo is not None:
         # elementwise finiteness test isfinite(E): stays a test about the substituted element
         if not (fo.fv() & set(mapping)): return cond
         nf_ = fo.subst(mapping)
         if nf_.constval() is not None: return True
-        nc = Cond.get(("finite", nf_.keystr()), f"isfinite({nf_!r})"[:100]); nc.finite_of = nf_
+        nc = Cond.get(("finite", nf_.keystr()), f"isfinite({nf_!r})"[:100]); nc.finite_elem = nf_
         return nc
     return cond
 
